@@ -86,6 +86,46 @@ fn conv(codec: &str, text: &[char]) -> Value {
     })
 }
 
+/// The same text through the real zone-file reader: a record whose last
+/// field is a Base-N blob, with the text split into tokens of two characters
+/// (token boundaries must not matter).
+fn scan(codec: &str, text: &[char]) -> Value {
+    use domain::base::iana::Class;
+    use domain::base::rdata::ComposeRecordData;
+    use domain::zonefile::inplace::{Entry, Zonefile};
+    let mut toks = String::new();
+    for (i, c) in text.iter().enumerate() {
+        if codec != "b32" && i > 0 && i % 2 == 0 {
+            toks.push(' ');
+        }
+        toks.push(*c);
+    }
+    // prefix = RDATA octets that precede the blob
+    let (line, prefix): (String, usize) = match codec {
+        "b16" => (format!("x. 3600 IN DS 1 8 2 {}\n", toks), 4),
+        "b32" => (format!("x. 3600 IN NSEC3 1 0 0 - {} A\n", toks), 6),
+        _ => (format!("x. 3600 IN OPENPGPKEY {}\n", toks), 0),
+    };
+    let mut zf = Zonefile::new();
+    zf.set_default_class(Class::IN);
+    zf.extend_from_slice(line.as_bytes());
+    match zf.next_entry() {
+        Ok(Some(Entry::Record(r))) => {
+            let mut rd = Vec::new();
+            if r.data().compose_rdata(&mut rd).is_err() {
+                return json!({"err": true});
+            }
+            let blob = match codec {
+                // NSEC3: alg flags iter(2) saltlen(=0) hashlen hash bitmap(A = 00 01 40)
+                "b32" => rd[prefix..rd.len() - 3].to_vec(),
+                _ => rd[prefix..].to_vec(),
+            };
+            json!({"ok": json_bytes(&blob)})
+        }
+        _ => json!({"err": true}),
+    }
+}
+
 fn encode(codec: &str, o: &[u8]) -> Value {
     let (a, b, c) = match codec {
         "b16" => {
@@ -119,8 +159,12 @@ fn main() {
                 let s = string_of(&input["text"]);
                 let chars: Vec<char> = s.chars().collect();
                 let (fin, sticky) = machine(&codec, &chars);
-                json!({"fin": fin, "dec": decode(&codec, &s),
-                       "conv": conv(&codec, &chars), "sticky": sticky})
+                let mut o = json!({"fin": fin, "dec": decode(&codec, &s),
+                       "conv": conv(&codec, &chars), "sticky": sticky});
+                if input["scan"].as_bool() == Some(true) {
+                    o["scan"] = scan(&codec, &chars);
+                }
+                o
             }
             Some("enc") => encode(&codec, &bytes_of(&input["octets"])),
             _ => json!({"bad_case": true}),
